@@ -431,7 +431,8 @@ impl Ctx {
         let distinct = self.distinct.lock().unwrap().len() as u64;
         let violations = self.violations();
         let mut inconclusive = self.inconclusive.lock().unwrap().clone();
-        if violations == 0 && distinct < floor.max(2) {
+        // A replay runs one case: the floor does not apply.
+        if violations == 0 && distinct < floor.max(2) && self.args.replay.is_none() {
             let reason = format!(
                 "only {distinct} distinct non-trivial cases observed, floor is {floor}"
             );
